@@ -238,8 +238,10 @@ func runC11(r *Run) {
 	r.rule("C11.R3", "every division reachable from unrecovered roots has a non-zero divisor by construction, by a dominating test, or by validation at its writers", 8)
 	r.rule("C11.R3w", "witnesses for the audited divisor: TokenFeeder validation rejects Interval < 1; every writer of oracle params validates or constructs non-zero intervals", 4)
 	r.rule("C11.R5", "the ok result of big.Int.SetString / NewIntFromString is checked before the value is used on unrecovered paths", 2)
-	r.rule("C11.R6", "arithmetic that panics on a negative result in block processing stays non-negative by construction: the fee-distribution remainder (C17.R3/R4 obligations) and the slashed-undelegation clamp (C04.R2)", 8)
+	r.rule("C11.R6", "arithmetic that panics on a negative result in block processing stays non-negative by construction: the fee-distribution remainder (C17.R3/R4 obligations) the slashed-undelegation clamp (C04.R2) and the commission rate bounded by one where operator records are created", 9)
 	r.rule("C11.R7", "every index/slice expression on an unrecovered path whose bounds check the Go compiler cannot eliminate is dominated by a length test, is of a safe shape (range index, sort comparator, parsed-n, split-first), or is audited", 40)
+	r.rule("C11.R7p", "constant-index reads of decoded precompile arguments are dominated by a length test that covers the index (a panic there is recovered by baseapp, but it is a panic during transaction delivery)", 10)
+	c11PrecompileIndexes(r)
 	r.rule("C11.R8", "no write to an entry of a nil map: map fields of the repository's structs that are written by index are initialised at every construction site (or by the writer itself); an inner map is created under a presence test before it is written", 8)
 	c11MapFields(r)
 	c11NestedMapWrites(r)
@@ -265,6 +267,32 @@ func runC11(r *Run) {
 		}
 		if n == 0 {
 			r.bad("C11.R6", "remainder|none", "-", "C17.R3 obligations present", "no obligations")
+		}
+		// the validator split is tokens - tokens*rate: non-negative only for a commission rate of at most one, which
+		// is checked where an operator record is created (the SDK's Commission.Validate bounds MaxRate by 1 and
+		// Rate by MaxRate)
+		if vv := r.W.View("x/operator/types", "OperatorInfo.ValidateBasic"); vv == nil {
+			r.bad("C11.R6", "commission|rate-at-most-one", "-", "anchor", "OperatorInfo.ValidateBasic not found")
+		} else {
+			okV := vv.rejectsWhen(vv.Decl.Body, func(f Fact) bool {
+				o := vv.outcome(f)
+				if o == nil || o.Success || o.Callee.Name() != "Validate" || o.Callee.Pkg() == nil || !strings.HasSuffix(o.Callee.Pkg().Path(), "cosmos-sdk/x/staking/types") {
+					return false
+				}
+				recv, _, _, isM := methodCall(o.Call)
+				return isM && lastField(recv) == "Commission"
+			}, nil)
+			okMsg := false
+			if mv := r.W.View("x/operator/types", "RegisterOperatorReq.ValidateBasic"); mv != nil {
+				ast.Inspect(mv.Decl.Body, func(n ast.Node) bool {
+					rs, isR := n.(*ast.ReturnStmt)
+					if isR && len(rs.Results) == 1 && mv.calleeName2(rs.Results[0]) == "ValidateBasic" && strings.HasSuffix(exprString(rs.Results[0]), ".Info.ValidateBasic()") {
+						okMsg = true
+					}
+					return true
+				})
+			}
+			r.check(okV && okMsg, "C11.R6", "commission|rate-at-most-one", vv.pos(vv.Decl), "an operator record is created only with commission rates accepted by the SDK's Commission.Validate (MaxRate <= 1, Rate <= MaxRate)", fmt.Sprintf("OperatorInfo.ValidateBasic rejects on Commission.Validate(): %v; the register message validates its info: %v - with a rate above one the validator split tokens - tokens*rate is negative and AllocateTokensToValidator panics in BeginBlock", okV, okMsg))
 		}
 		// a slashed undelegation never goes below zero (its completed amount becomes a coin amount in the
 		// delegation EndBlock, where a negative value panics): the clamp of C04.R2
